@@ -126,6 +126,16 @@ fn pairs() -> Vec<Pair> {
         let nm = names.join("+");
         v.push(pair(&format!("func-vs-eos|gcpcsaft:{nm}"), Arc::new(zoo::gc_eos(&names)), Arc::new(zoo::gc_func(&names)), names.len(), 500.0, 1e-10, 1e-10, names.len() == 2 && names[0] == "ethanol"));
     }
+    // gc-PC-SAFT with binary segment records (k_ij between groups of different molecules): rehner2023
+    for names in [vec!["hexane", "toluene"], vec!["1-butanol", "benzene"], vec!["propane", "ethanol"], vec!["ethanol", "hexane", "benzene"]] {
+        let nm = names.join("+");
+        let (sub, seg, bin) = (zoo::pfile("pcsaft/gc_substances.json"), zoo::pfile("pcsaft/rehner2023_hetero.json"), zoo::pfile("pcsaft/rehner2023_hetero_binary.json"));
+        let e = feos::gc_pcsaft::GcPcSaftEosParameters::from_json_segments(&names, sub.clone(), seg.clone(), Some(bin.clone()), IdentifierOption::Name);
+        let f = feos::gc_pcsaft::GcPcSaftFunctionalParameters::from_json_segments(&names, sub, seg, Some(bin), IdentifierOption::Name);
+        if let (Ok(e), Ok(f)) = (e, f) {
+            v.push(pair(&format!("func-vs-eos|gcpcsaft:rehner2023+kij:{nm}"), Arc::new(GcPcSaft::new(Arc::new(e))), Arc::new(GcPcSaftFunctional::new(Arc::new(f))), names.len(), 500.0, 1e-10, 1e-10, names.len() == 2 && names[0] == "hexane"));
+        }
+    }
     {
         let p = Arc::new(PetsParameters::new_binary(zoo::pets_records(), Some(0.05.into())).unwrap());
         v.push(pair("func-vs-eos|pets:2k", Arc::new(Pets::new(p.clone())), Arc::new(PetsFunctional::new(p)), 2, 130.0, 1e-10, 1e-10, true));
